@@ -1248,3 +1248,20 @@ func familyFns(root *ssa.Function) []*ssa.Function {
 func isFamilyBoundary(f *ssa.Function) bool {
 	return len(callSitesOf(f)) > 3
 }
+
+// goroutinesOf: the functions started with `go` inside root's family (closures or methods).
+func goroutinesOf(root *ssa.Function) []*ssa.Function {
+	seen := map[*ssa.Function]bool{}
+	var out []*ssa.Function
+	for _, f := range familyFns(root) {
+		allInstrs(f, func(in ssa.Instruction) {
+			if g, ok := in.(*ssa.Go); ok {
+				if t := goTarget(g); t != nil && !seen[t] && len(t.Blocks) > 0 {
+					seen[t] = true
+					out = append(out, t)
+				}
+			}
+		})
+	}
+	return out
+}
